@@ -85,7 +85,7 @@ AllocDone ==  \* files opened / created; decide: trust resume bits, start empty,
                THEN /\ status' = (IF have = Piece THEN "Seeding" ELSE "Downloading") /\ UNCHANGED <<have, bfKnown>>
                ELSE IF filesExist = "none"
                     THEN /\ status' = "Downloading" /\ have' = {} /\ bfKnown' = TRUE
-                    ELSE /\ status' = "Verifying" /\ UNCHANGED <<have, bfKnown>>
+                    ELSE /\ status' = "Verifying" /\ have' = {} /\ bfKnown' = FALSE   \* files were missing: the resume bitfield is dropped before the re-check (7d677fc)
     /\ good' = (IF filesExist = "none" THEN {} ELSE good)
     /\ UNCHANGED <<stale, peers, downloads, wantRun, ncmd>>
 
